@@ -241,7 +241,8 @@ def run(ctx):
         "rule": "directory chains of depth <= %d (each level: no / regular-file / directory entry named spokfile, other entries sorting before and/or after "
                 "it where they can matter) x every start level x every stop in {each level, an unrelated directory}, built on disk and searched with "
                 "file.Find under a watchdog; besides the clean absolute spelling of the two paths, samples with a trailing separator, `.`/`x/..` elements and "
-                "paths relative to every working directory at or above them (%d calls); distinct_nontrivial = calls with start at or below stop that must find a spokfile (%d) + calls whose start is "
+                "paths relative to every working directory at or above them (%d calls); near-miss entry names (Spokfile, spokfil, spokfile.bak, spokfile.d/), "
+                "chains running through directories that are themselves named spokfile, and chains 40 and 130 levels deep; distinct_nontrivial = calls with start at or below stop that must find a spokfile (%d) + calls whose start is "
                 "not below stop (%d), as computed by TLC" % (2 if tier == "quick" else 4, sum(1 for s, _ in pairs if (s["startSp"], s["stopSp"]) != ("clean", "clean")), ncf, nun),
         "model": {"module": "Find", "depth": 2 if tier == "quick" else 3, "distinct_states": m.distinct, "liveness": "Terminates",
                   "spellings": "all 9 pairs at depth %d; clean at depth %d" % (d_all, d_all + 1),
